@@ -592,7 +592,7 @@ func init() {
 func TestC09(t *testing.T) {
 	h := newHarness(t, "C09", "the finite product, enumerated completely: server configuration {CA only, CA + common-name rule, rule + password} x client credential {no certificate, plain-text bytes on the TLS port, self-signed, leaf of a foreign CA, expired leaf, "+
 		"right CA wrong name, right name only on an intermediate CA, right CA right name} x handshake fault {complete, abort after ClientHello, stall (held open), garbage record} x order {faulty client first, well-behaved client first} = 192 scenarios on real loopback TCP/TLS "+
-		"with certificates generated at run time; a rejected client comes back a second time with a TLS session cache; bursts of 40 failing handshakes on one running server; thorough adds bursts of 2..5 faulty clients and shuffled orders. "+
+		"with certificates generated at run time; a rejected client comes back a second time with a TLS session cache; bursts of 70 failing handshakes on one running server; thorough adds bursts of 2..5 faulty clients and shuffled orders. "+
 		"RECONFIGURATION: the configured CA is replaced while the server runs and the server restarted (Restart or Stop+Start, with and without a name rule): afterwards only clients of the CA configured now are served. CHILD tier: the example server as a process of its own with a TLS listener; faulty clients send generated junk (random bytes, record headers of every type/version/length, SSLv2-style first bytes, oversized records, plain RESP/HTTP) as first bytes or after a well-formed ClientHello; after each the process must be alive and serve a valid TLS and a plain client. Oracle: handler calls attributed to client identities by unique keys may only stem from clients whose chain verifies and - with a rule - whose LEAF carries the name "+
 		"(and that have sent AUTH where a password is set); rejected clients are disconnected; after each faulty client and while a staller is connected a valid TLS client handshakes and is served and a plain client gets a reply. "+
 		"Non-trivial: every scenario with a non-accepted credential or a fault other than complete. Distinct = distinct scenario tuple.")
@@ -631,8 +631,8 @@ product:
 	h.Col.Exhaustive("config x credential x fault x order (192 scenarios)", complete)
 
 	// many failed handshakes on ONE running server, a well-behaved client after each
-	long := []c09Case{{Config: "rule", Cred: "none", Fault: "complete", Order: "faulty-first", Repeat: 40}, {Config: "ca", Cred: "foreign", Fault: "complete", Order: "valid-first", Repeat: 40},
-		{Config: "ca", Cred: "plaintext", Fault: "garbage", Order: "faulty-first", Repeat: 40}, {Config: "rule+password", Cred: "right", Fault: "abort", Order: "faulty-first", Repeat: 40}}
+	long := []c09Case{{Config: "rule", Cred: "none", Fault: "complete", Order: "faulty-first", Repeat: 70}, {Config: "ca", Cred: "foreign", Fault: "complete", Order: "valid-first", Repeat: 70},
+		{Config: "ca", Cred: "plaintext", Fault: "garbage", Order: "faulty-first", Repeat: 70}, {Config: "rule+password", Cred: "right", Fault: "abort", Order: "faulty-first", Repeat: 70}}
 	for i, c := range long {
 		if i%h.NShards != h.Shard {
 			continue
